@@ -6,7 +6,11 @@
    heartbeating, full coverage, no further rebalance); its model-level proof is not done: the full
    statement stays visible below and the check is labelled partial for that clause. *)
 From Coq Require Import List Bool Arith.
+From Coq Require Import ZArith.
 From Verif Require Import C06_JoinScript C06_proof Group.
+From Verif Require Import DispatchActs C06_Codes C06_dispatch
+  HeartbeatDispatch JoinRetryDispatch JoinDispatch SyncDispatch CommitDispatch.
+Close Scope Z_scope.
 Import ListNotations.
 
 Theorem c06_join_advertises_all : forall rs asg mid,
@@ -34,6 +38,71 @@ Theorem c06_member_id_required_retry : forall asg mid m rs,
               join_script asg m rs = (q, o).
 Proof. exact member_id_required_retry. Qed.
 Print Assumptions c06_member_id_required_retry.
+
+(* ---- error replies: the dispatch chains below are regenerated from group_coordinator.py on every
+   run (translator/dispatch2gallina.py) and validated against the real handlers; the code sets are
+   what a Kafka coordinator can answer (model/C06_Codes.v). ------------------------------------- *)
+
+(* no coordinator error reply to a Heartbeat ends the member: each triggers its recovery *)
+Theorem c06_heartbeat_errors_recoverable :
+  forall c, In c kafka_heartbeat_codes -> recovers (heartbeatDispatch c) = true.
+Proof. exact heartbeat_recoverable. Qed.
+Print Assumptions c06_heartbeat_errors_recoverable.
+
+(* ... REBALANCE_IN_PROGRESS on a heartbeat asks for a rejoin and keeps member id and coordinator *)
+Theorem c06_heartbeat_rebalance_rejoins_only :
+  has ARequestRejoin (heartbeatDispatch 27%Z) = true /\
+  has AResetGeneration (heartbeatDispatch 27%Z) = false /\
+  has ACoordinatorDead (heartbeatDispatch 27%Z) = false.
+Proof. exact heartbeat_rebalance_rejoins_only. Qed.
+Print Assumptions c06_heartbeat_rebalance_rejoins_only.
+
+Theorem c06_heartbeat_actions :
+  (forall c, In c [15; 16]%Z -> has ACoordinatorDead (heartbeatDispatch c) = true) /\
+  (forall c, In c [22; 25]%Z -> has AResetGeneration (heartbeatDispatch c) = true).
+Proof. exact heartbeat_actions. Qed.
+Print Assumptions c06_heartbeat_actions.
+
+Theorem c06_join_errors_recoverable :
+  forall c, In c kafka_join_codes -> recovers (joinDispatch c) = true.
+Proof. exact join_recoverable. Qed.
+Print Assumptions c06_join_errors_recoverable.
+
+Theorem c06_join_member_id_required :
+  joinRetryDispatch MEMBER_ID_REQUIRED = [ASetMemberId; ARetryJoin] /\
+  (forall c, c <> MEMBER_ID_REQUIRED -> joinRetryDispatch c = []).
+Proof. split; [exact join_member_id_required | exact join_retry_only_member_id_required]. Qed.
+Print Assumptions c06_join_member_id_required.
+
+Theorem c06_join_fatal_reported :
+  forall c, In c kafka_join_fatal_codes -> joinDispatch c = [ARaiseSame].
+Proof. exact join_fatal_reported. Qed.
+Print Assumptions c06_join_fatal_reported.
+
+Theorem c06_sync_errors_recoverable :
+  forall c, In c kafka_sync_codes -> recovers (syncDispatch c) = true.
+Proof. exact sync_recoverable. Qed.
+Print Assumptions c06_sync_errors_recoverable.
+
+(* for every integer: any SyncGroup error requests a rejoin before anything else *)
+Theorem c06_sync_error_requests_rejoin :
+  forall c, c <> 0%Z -> exists rest, syncDispatch c = ARequestRejoin :: rest.
+Proof. exact sync_error_requests_rejoin. Qed.
+Print Assumptions c06_sync_error_requests_rejoin.
+
+Theorem c06_commit_error_actions :
+  (forall c, In c kafka_commit_codes -> fatal (commitDispatch c) = false /\ has AErrored (commitDispatch c) = true) /\
+  (forall c, In c [15; 16]%Z -> has ACoordinatorDead (commitDispatch c) = true) /\
+  (forall c, In c [22; 25]%Z -> has AResetGeneration (commitDispatch c) = true) /\
+  has ARequestRejoin (commitDispatch 27%Z) = true.
+Proof. exact commit_actions. Qed.
+Print Assumptions c06_commit_error_actions.
+
+(* the hand model of perform_group_join used above classifies join errors as the source does *)
+Theorem c06_join_model_agrees_with_source : forall e c,
+  In c (code_of e) -> classify_join joinRetryDispatch joinDispatch c = model_class e.
+Proof. exact join_model_agrees_with_source. Qed.
+Print Assumptions c06_join_model_agrees_with_source.
 
 (* Convergence, full statement (NOT proved; decided per run by the simulator monitor): from every
    reachable state of the membership model, a quiet continuation exists after which every live
